@@ -19,25 +19,29 @@ ASSUMPTIONS = [
 
 def base_vad():
     return {"top": "top", "modules": [
-        {"name": "top", "attrs": {"top_attr": '"1"'}, "params": {"P": "4", "[3:0] W": "4'h3", "integer N": "7"},
+        {"name": "top", "attrs": {"top_attr": '"1"', "bare_top": None}, "params": {"P": "4", "[3:0] W": "4'h3", "integer N": "7"},
          "ports": [["a", "in", None, None], ["y", "out", 1, 0], ["\\esc.in", "in", None, None], ["b", "in", 2, 0]],
          "wires": [["w", 1, 0, {"keep": None}], ["\\q[3]", None, None], ["r", 5, 3], ["s1", None, None], ["v", 1, 0]],
          "insts": [
              {"name": "u0", "module": "leaf", "positional": True, "params": {"INIT": "8'h0F", "S": '"str"', "T": '"two  words and\ttab"'},
               "conns": [[None, [["net", "a"]]], [None, [["bit", "w", 0]]], [None, [["net", "y"]]]]},
-             {"name": "\\inst/x", "module": "leaf", "attrs": {"dont_touch": '"true"'},
+             {"name": "\\inst/x", "module": "leaf", "attrs": {"dont_touch": '"true"', "bare": None, "after": '"x y"'},
               "conns": [["i", [["net", "\\esc.in"]]], ["o", [["net", "\\q[3]"]]], ["d", [["bit", "w", 1], ["net", "\\q[3]"]]]]},
              {"name": "m0", "module": "mid", "empty_params": True, "conns": [["p", [["range", "w", 1, 0]]], ["r", [["range", "r", 5, 4]]], ["al", [["bit", "b", 0], ["net", "a"]]],
                                                       ["p2", [["bit", "r", 3], ["bit", "b", 2]]], ["al1", [["net", "s1"]]]]},
              {"name": "p0", "module": "prim", "conns": [["x", [["c", 0]]], ["z", [["bit", "b", 2], ["c", 1]]], ["q", []]]},
-             {"name": "p1", "module": "prim", "conns": [["x", [["bit", "r", 3]]], ["z", [["range", "b", 1, 0]]]]}],
+             {"name": "p1", "module": "prim", "conns": [["x", [["bit", "r", 3]]], ["z", [["range", "b", 1, 0]]]]},
+             {"name": "u9", "module": "leaf", "positional": True,
+              "conns": [[None, [["net", "s1"]]], [None, [["bit", "v", 0]]], [None, [["range", "r", 4, 3]]]]}],
          "assigns": [[[["bit", "y", 0]], [["bit", "b", 1]]], [[["range", "r", 5, 4]], [["range", "b", 2, 1]]]]},
         {"name": "leaf", "celldefine": True, "ports": [["i", "in", None, None], ["o", "out", None, None], ["d", "out", 1, 0]]},
         {"name": "mid", "ports": [["p", "in", 1, 0], ["p2", "in", 1, 0], ["r", "out", 1, 0], ["al", "in", None, None, ["hi", "lo"]], ["al1", "in", None, None, ["one"]]],
          "insts": [{"name": "l", "module": "leaf", "conns": [["i", [["bit", "p", 0]]], ["d", [["net", "r"]]]]},
                    {"name": "l2", "module": "leaf", "conns": [["i", [["net", "hi"]]], ["o", [["net", "lo"]]]]},
                    {"name": "l3", "module": "leaf", "conns": [["i", [["bit", "p2", 1]]], ["d", [["net", "p2"]]]]},
-                   {"name": "l4", "module": "leaf", "conns": [["i", [["net", "one"]]]]}]},
+                   {"name": "l4", "module": "leaf", "conns": [["i", [["net", "one"]]]]},
+                   {"name": "lp", "module": "leaf", "positional": True,
+                    "conns": [[None, [["bit", "r", 0]]], [None, [["net", "hi"]]], [None, [["net", "p"]]]]}]},
         {"name": "prim", "declared": False, "ports": []},
     ]}
 
